@@ -10,6 +10,7 @@ import (
 type LayoutOpts struct {
 	NoEmptyComments bool
 	NoBreakColon    bool
+	Esc             int // 0: strings as written; 1: type names may be spelled with an escape; 2: any string of a rule value / quoted rule name may
 }
 
 // Layout draws a random layout.
@@ -30,6 +31,10 @@ func Layout(t *rapid.T, o LayoutOpts) *model.Layout {
 	}
 	if !o.NoEmptyComments && l.Comments != 0 {
 		l.EmptyComments = rapid.IntRange(0, 3).Draw(t, "emptycomments") == 0
+	}
+	if o.Esc > 0 {
+		// (not a difference "in presentation only" in the sense of C14: drawn for the checks that name it)
+		l.Esc = rapid.SampledFrom([]int{0, 0, 1, o.Esc}).Draw(t, "esc")
 	}
 	if !o.NoBreakColon {
 		l.BreakColon = rapid.Bool().Draw(t, "breakcolon")
